@@ -14,6 +14,9 @@ def handle (args : List String) : String :=
          !(["none", "tablename", "transaction", "transaction-bucket"].contains pmethod) then "bad-op" else
       s!"tick={msToNs t} upd={msToNs u} max={msToNs m} workers={w} chans={w} depth={d} mem={mm} routing={routing} pmethod={pmethod} buckets={b} wl={wl} rx={rx} list={list} noold={noold}"
     | _, _, _, _, _, _, _ => "bad-op"
+  | ["workers", kind, n] =>
+    -- one retry policy per worker (the model's retry budget is per worker: Props.C17 `retry_budget_gives_up`)
+    if kind == "kinesis" || kind == "s3" then (match n.toNat? with | some k => s!"policies={k}" | none => "bad-op") else "bad-op"
   | ["factory", kind, size, _maxMsg, _flush] =>
     -- a batch is full at exactly the configured record count; Kafka refuses a record above `kafka-max-message-bytes`
     -- (whatever `kafka-flush-bytes` is) and accepts one 200 bytes below it
